@@ -765,10 +765,11 @@ func (s *Segment) length(version Version, level Level) (int, bool) {
 		return 3 + n + m, true
 	case ModeKanji:
 		n := capacity.BitLength[ModeKanji]
-		if len(s.Data) >= 1<<n {
+		count := utf8.RuneCount(s.Data)
+		if count >= 1<<n {
 			return 0, false
 		}
-		m := len(s.Data) * 13
+		m := count * 13
 		return 3 + n + m, true
 	default:
 		return 0, false
@@ -836,15 +837,15 @@ func (s *Segment) encodeBytes(n int, buf *bitstream.Buffer) error {
 }
 
 func (s *Segment) encodeKanji(n int, buf *bitstream.Buffer) error {
-	if len(s.Data) >= 1<<n {
-		return fmt.Errorf("rmqr: data is too long for bytes: %d", len(s.Data))
+	count := utf8.RuneCount(s.Data)
+	if count >= 1<<n {
+		return fmt.Errorf("rmqr: data is too long for kanji mode: %d", count)
 	}
 
 	// mode
 	buf.WriteBitsLSB(uint64(ModeKanji), 3)
 
 	// data length
-	count := utf8.RuneCount(s.Data)
 	buf.WriteBitsLSB(uint64(count), n)
 
 	// data
